@@ -1502,7 +1502,26 @@ def r5d_a_jump_kills_exactly_the_scopes_it_leaves(ctx):
         if "boundary" in d:
             stops.append((S, d))
     good = [d for S, d in stops if re.fullmatch(r"(eq|Eq)\((next\(.*\)@Some\.0|scope),boundary\)|(eq|Eq)\(boundary,(next\(.*\)@Some\.0|scope)\)", d) or re.fullmatch(r"eq\(.*scope.*,.*boundary.*\)", d) and "parent" not in d and "scopes[" not in d]
-    if kills and stops and len(good) == len(stops):
+    # the same set of scopes computed up front: the walk runs over `scope_stack[p..]` where p is the position of the boundary
+    # in the stack (the whole stack when it is not there), so the boundary is the last scope killed
+    sliced = False
+    if kills and not stops:
+        pos = [c for c in fn.calls() if (c.callee or "").split("::")[-1] in ("rposition", "position") and sh(ne(fn.deep(c.args[0], 6))) == "iter(scope_stack)"]
+        clo = [g for g in ctx.lib.closures_of(fn.id)]
+        if len(pos) == 1 and len(clo) == 1:
+            cc = list(clo[0].calls())
+            is_eq = len(cc) == 1 and (cc[0].callee or "").split("::")[-1] == "eq" and cc[0].dest["l"] == 0 and not any(clo[0].blocks[b]["t"]["k"] == "switch" for b in clo[0].live) \
+                and sorted(sh(ne(clo[0].deep(a))).lstrip("*") for a in cc[0].args) == ["arg1.0", "arg2"] and "boundary" in sh(ne(fn.deep(pos[0].args[1], 6)))
+            p_txt = sh(ne(fn.deep(pos[0].dest, 8))) if False else "%s(iter(scope_stack),%s)" % ((pos[0].callee or "").split("::")[-1], sh(ne(fn.deep(pos[0].args[1], 6))))
+            want = "index(scope_stack,RangeFrom::RangeFrom{unwrap_or(%s,0)})" % p_txt
+            walked = [sh(ne(fn.deep(c.args[0], 14))).replace(" ", "") for c in fn.calls() if (c.callee or "").split("::")[-1] == "into_iter"]
+            killed = [sh(ne(fn.deep(k_.args[2], 6))) for k_ in kills]
+            if is_eq and walked and all(w in ("rev(iter(%s))" % want, "iter(%s)" % want) for w in walked) and all(k_.startswith("next(") and k_.endswith("@Some.0") for k_ in killed) \
+                    and all(fn.in_loop(k_.block) if hasattr(fn, "in_loop") else True for k_ in kills):
+                sliced = True
+    if sliced:
+        ctx.ok("jump-kills|stops-at-the-boundary", fn.where(kills[0].block), "the walk covers the stack from the boundary's position to the top: the boundary is the last scope killed")
+    elif kills and stops and len(good) == len(stops):
         ctx.ok("jump-kills|stops-at-the-boundary", fn.where(stops[0][0]), "the walk ends when the scope just killed equals the boundary")
     else:
         ctx.bad("jump-kills|stop-test|%s" % (stops[0][1][:30] if stops else "none"), fn.where(), "kill_scopes_through ends its walk on `%s`, not on `scope == boundary`: the scopes killed at a `comot` / `next` are not exactly the ones the jump leaves" % (stops[0][1][:70] if stops else "no test of the boundary"))
